@@ -22,5 +22,5 @@ LEVEL_TEXT = ("Machine-checked Coq theorems (inductive invariants of the step re
               "after all phases returned with a complete aggregate; Running() false after Wait.")
 LEVEL_NOTE = ("partial: sync.Once, atomics, channels, context, WaitGroup and the Collector are model primitives (modelled, not verified); "
               "the hand-written model is tied to the code by call-log acceptance (vm_compute) on ~2.5k recorded runs per quick check, "
-              "including deterministic race placements through the verif yield hooks.")
+              "including deterministic race placements through the verif yield hooks and panic windows (a panic value whose formatter parks inside erc.Recover while a late Wait/Running/Start is issued).")
 TECHNIQUE = "Coq proof (inductive invariants over an interleaving transition system) + vm_compute call-log acceptance against the real srv.Service under yield-hook schedules"
